@@ -17,6 +17,7 @@ func (x *Exec) siteAssertions(st *State, in ssa.Instruction, name string, args [
 	if x.fc == nil {
 		return site
 	}
+	canaryDone := false
 	for _, ca := range x.fc.CallAsrt {
 		match := ca.Site == site || ca.Site == name && x.calls[name] == 1
 		if ca.SitePos != "" {
@@ -24,6 +25,12 @@ func (x *Exec) siteAssertions(st *State, in ssa.Instruction, name string, args [
 			match = in.Pos().IsValid() && x.posKey(in.Pos()) == ca.SitePos
 		}
 		if match {
+			if !canaryDone {
+				// vacuity guard: the call site must be reachable (an infeasible path would make
+				// every assertion at it hold trivially)
+				canaryDone = true
+				x.obls = append(x.obls, &Obligation{Name: x.short + ":reach:" + ca.Site, Kind: "site-reach", Props: x.props(), Prefix: x.out.Len(), Live: st.live, Goal: "false", Canary: true, Func: x.short})
+			}
 			ov := map[string]dual{}
 			for i := range args {
 				ov[fmt.Sprintf("arg%d", i)] = dualOf(args[i])
